@@ -175,7 +175,7 @@ def run_property(pid, tier, jobs, seed, quiet=False):
             print("HARNESS-ERROR property=%s replay of %s raised" % (pid, sig))
             traceback.print_exc()
             return 2
-        if not any(a["sig"] == sig for a in again):
+        if not again:  # (a replay may meet another invariant of the same property first: still confirmed)
             print("HARNESS-ERROR property=%s violation %r did not reproduce on replay (got %r)"
                   % (pid, sig, [a["sig"] for a in again]))
             return 2
